@@ -124,16 +124,12 @@ fn judge_txs(w: &SetWorld, items: &[CardanoTransaction], m: &MapProofM, class: &
             }
         } else {
             let shape = shape_of(w, m);
-            mon.violation(
-                &format!("C09 MkSetProof<CardanoTransaction> verifies against the committed root for a transaction that was never committed: {shape}"),
-                &format!(
+            crate::viol::report(mon, &format!("C09 MkSetProof<CardanoTransaction> verifies against the committed root for a transaction that was never committed: {shape}"), || format!(
                     "MkSetProof::verify = Ok (wire form MkSetProofMessagePart::verify: {wire_ok}) and merkle_root() equals the committed root, but item {:?} is not one of the {} committed transactions; mutation class {class}",
                     false_items[0],
                     w.txs.len()
-                ),
-                json!({"kind": "mksetproof-tx", "map": w.map.to_json(), "proof": m.to_json(), "class": class, "witness_shape": shape,
-                       "items": items.iter().map(|t| json!([t.transaction_hash, *t.block_number, *t.slot_number, t.block_hash])).collect::<Vec<_>>()}),
-            );
+                ), || json!({"kind": "mksetproof-tx", "map": w.map.to_json(), "proof": m.to_json(), "class": class, "witness_shape": shape,
+                       "items": items.iter().map(|t| json!([t.transaction_hash, *t.block_number, *t.slot_number, t.block_hash])).collect::<Vec<_>>()}));
         }
     }
     accepted
@@ -153,12 +149,8 @@ fn judge_blocks(w: &SetWorld, items: &[CardanoBlock], m: &MapProofM, class: &str
     }
     if accepted && !false_items.is_empty() {
         let shape = shape_of(w, m);
-        mon.violation(
-            &format!("C09 MkSetProof<CardanoBlock> verifies against the committed root for a block that was never committed: {shape}"),
-            &format!("item {:?} is not a committed block; mutation class {class}", false_items[0]),
-            json!({"kind": "mksetproof-block", "map": w.map.to_json(), "proof": m.to_json(), "class": class, "witness_shape": shape,
-                   "items": items.iter().map(|b| json!([b.block_hash, *b.block_number, *b.slot_number])).collect::<Vec<_>>()}),
-        );
+        crate::viol::report(mon, &format!("C09 MkSetProof<CardanoBlock> verifies against the committed root for a block that was never committed: {shape}"), || format!("item {:?} is not a committed block; mutation class {class}", false_items[0]), || json!({"kind": "mksetproof-block", "map": w.map.to_json(), "proof": m.to_json(), "class": class, "witness_shape": shape,
+                   "items": items.iter().map(|b| json!([b.block_hash, *b.block_number, *b.slot_number])).collect::<Vec<_>>()}));
     }
     accepted
 }
@@ -211,11 +203,7 @@ pub fn run_world(w: &SetWorld, rng: &mut ChaCha20Rng, selections: usize, mon: &m
         let Some(m) = mkmap::honest(&w.map, &nodes, mon) else { continue };
         // completeness at entity level
         if !judge_txs(w, &sel, &m, "identity", mon) {
-            mon.violation(
-                "C09 honest MkSetProof<CardanoTransaction> rejected",
-                "MkSetProof::verify rejected an honestly generated proof (or its root differs from the reference root)",
-                json!({"kind": "mksetproof-tx", "map": w.map.to_json(), "proof": m.to_json(), "class": "identity"}),
-            );
+            crate::viol::report(mon, "C09 honest MkSetProof<CardanoTransaction> rejected", || "MkSetProof::verify rejected an honestly generated proof (or its root differs from the reference root)".to_string(), || json!({"kind": "mksetproof-tx", "map": w.map.to_json(), "proof": m.to_json(), "class": "identity"}));
         }
         if mon.wants_sample() {
             mon.sample(json!({"part": "c/MkSetProof", "committed_transactions": w.txs.len(), "committed_blocks": w.blocks.len(),
@@ -260,7 +248,7 @@ pub fn run_world(w: &SetWorld, rng: &mut ChaCha20Rng, selections: usize, mon: &m
             let bn = vec![block_bytes(b0)];
             if let Some(mb) = mkmap::honest(&w.map, &bn, mon) {
                 if !judge_blocks(w, &[b0.clone()], &mb, "identity", mon) {
-                    mon.violation("C09 honest MkSetProof<CardanoBlock> rejected", "verify rejected an honest block proof", json!({"kind": "mksetproof-block", "map": w.map.to_json(), "proof": mb.to_json()}));
+                    crate::viol::report(mon, "C09 honest MkSetProof<CardanoBlock> rejected", || "verify rejected an honest block proof".to_string(), || json!({"kind": "mksetproof-block", "map": w.map.to_json(), "proof": mb.to_json()}));
                 }
                 judge_blocks(w, &[CardanoBlock::new(b0.block_hash.clone(), b0.block_number + 1, b0.slot_number)], &mb, "block_number_plus_1", mon);
                 judge_blocks(w, &[CardanoBlock::new(hex::encode(rnd::bytes(rng, 32)), b0.block_number, b0.slot_number)], &mb, "block_renamed", mon);
@@ -393,7 +381,7 @@ pub fn run_legacy(rng: &mut ChaCha20Rng, mon: &mut Monitor) {
             mon.nontrivial_str(&format!("sl|{}|{:?}|{}", hex::encode(&w.root), hashes, hex::encode(bincode_encode(&pm))));
         }
         if class == "identity" && !accepted {
-            mon.violation("C09 honest CardanoTransactionsSetProof rejected", "verify rejected an honest proof", json!({"kind": "legacy-setproof", "map": w.to_json(), "proof": pm.to_json()}));
+            crate::viol::report(mon, "C09 honest CardanoTransactionsSetProof rejected", || "verify rejected an honest proof".to_string(), || json!({"kind": "legacy-setproof", "map": w.to_json(), "proof": pm.to_json()}));
         }
         if accepted && !false_items.is_empty() {
             let shape = if class.starts_with("forged_hash_with_duplicate") {
@@ -401,11 +389,7 @@ pub fn run_legacy(rng: &mut ChaCha20Rng, mon: &mut Monitor) {
             } else {
                 "other"
             };
-            mon.violation(
-                &format!("C09 CardanoTransactionsSetProof verifies against the committed root for a transaction hash that was never committed: {shape}"),
-                &format!("hash {} is not committed; mutation class {class}", false_items[0]),
-                json!({"kind": "legacy-setproof", "map": w.to_json(), "proof": pm.to_json(), "hashes": hashes, "class": class}),
-            );
+            crate::viol::report(mon, &format!("C09 CardanoTransactionsSetProof verifies against the committed root for a transaction hash that was never committed: {shape}"), || format!("hash {} is not committed; mutation class {class}", false_items[0]), || json!({"kind": "legacy-setproof", "map": w.to_json(), "proof": pm.to_json(), "hashes": hashes, "class": class}));
         }
     }
 }
